@@ -34,6 +34,7 @@ type Prog struct {
 	Strs     *ssa.Package
 	byPath   map[string]*ssa.Package
 	canon    map[string]types.Object // canonical anchor key -> renamed object of this tree
+	fnValues map[*ssa.Function]bool
 	callers  map[*ssa.Function][]ssa.CallInstruction
 	skipSite func(ssa.CallInstruction) bool
 
@@ -358,4 +359,66 @@ func (p *Prog) FuncPos(fn *ssa.Function) string {
 		return "-"
 	}
 	return p.Pos(fn.Pos())
+}
+
+// startupOnly: fn runs only while the package is initialised: a package init function, or an unexported function all
+// of whose static callers are start-up code and whose value is never taken (so splitting init into helpers does
+// not turn warm-up code into "logging path" code).
+func (p *Prog) startupOnly(fn *ssa.Function) bool {
+	return p.startupOnly1(fn, map[*ssa.Function]bool{})
+}
+
+func (p *Prog) startupOnly1(fn *ssa.Function, busy map[*ssa.Function]bool) bool {
+	if fn == nil {
+		return false
+	}
+	if strings.HasPrefix(fn.Name(), "init") && fn.Signature.Recv() == nil && (fn.Name() == "init" || strings.HasPrefix(fn.Name(), "init#") || strings.HasPrefix(fn.Name(), "init$")) {
+		return true
+	}
+	if fn.Parent() != nil {
+		return p.startupOnly1(fn.Parent(), busy)
+	}
+	if busy[fn] || fn.Object() == nil || fn.Object().Exported() || fn.Signature.Recv() != nil {
+		return false
+	}
+	busy[fn] = true
+	defer delete(busy, fn)
+	sites := p.staticCallers()[fn]
+	if len(sites) == 0 {
+		return false
+	}
+	for _, cs := range sites {
+		if !p.startupOnly1(cs.Parent(), busy) {
+			return false
+		}
+	}
+	// the function value must not escape
+	return !p.usedAsValue()[fn]
+}
+
+// usedAsValue: named functions that occur as an operand other than the callee of a static call.
+func (p *Prog) usedAsValue() map[*ssa.Function]bool {
+	if p.fnValues != nil {
+		return p.fnValues
+	}
+	p.fnValues = map[*ssa.Function]bool{}
+	var ops []*ssa.Value
+	for _, g := range p.RepoFuncs() {
+		for _, b := range g.Blocks {
+			for _, in := range b.Instrs {
+				ops = in.Operands(ops[:0])
+				for i, op := range ops {
+					f, ok := (*op).(*ssa.Function)
+					if !ok {
+						continue
+					}
+					if cs, isCall := in.(ssa.CallInstruction); isCall && i == 0 && cs.Common().Value == ssa.Value(f) && !cs.Common().IsInvoke() {
+						continue
+					}
+					p.fnValues[f] = true
+				}
+			}
+		}
+	}
+	return p.fnValues
 }
